@@ -13,6 +13,7 @@ import Iavl.Model.ProofGen
 import Iavl.Model.Flusher
 import Iavl.Model.IndexMachine
 import Iavl.Model.V2Log
+import Iavl.Model.Pins
 /-
   The executable face of the model: a line-protocol interpreter that answers every operation of a
   history with exactly the definitions the theorems are about (`VTree.step`, `hashNode`, `mkProof`,
@@ -99,6 +100,8 @@ structure XState where
   kv : KVState := KVState.empty
   kvPfx : Bytes := []
   holds : List (String × Nat) := []   -- open exports: (handle, pinned version)
+  pins : Pins.St := Pins.init          -- C06: the reader counters of Model/Pins.lean (`pinned_version_survives`)
+  pinIds : List String := []           -- the handle of each exporter of `pins`, same order
   prunedEver : Bool := false           -- a deletion of old versions may re-key a root to (v,0): fetching it then costs a second read
   cfgCache : Nat := 0                  -- node cache size of the configuration (read counts are predicted for 0 only)
   ix : IxSt Bytes Bytes := IxSt.init none true   -- C07: the index machine, stepped beside the tree machine
@@ -460,12 +463,12 @@ partial def exec (x : XState) (args : List String) : XState × String :=
   | "open" :: rest =>
     let target := match rest with | t :: _ => t.toNat! | [] => 0
     let (x', r) := stepOp x (.reopen x.cfgIv target)
-    ({ x' with opened := true, fastOpen := x.cfgFast, holds := [] }, r)
+    ({ x' with opened := true, fastOpen := x.cfgFast, holds := [], pins := Pins.init, pinIds := [] }, r)
   | ["opennl"] =>
     -- a new `MutableTree` on the same store, not loaded: the state a failed load leaves as well
-    ({ x with vs := x.vs.fresh treeContent x.cfgIv, opened := true, fastOpen := x.cfgFast, holds := [],
+    ({ x with vs := x.vs.fresh treeContent x.cfgIv, opened := true, fastOpen := x.cfgFast, holds := [], pins := Pins.init, pinIds := [],
               ix := { x.ix with vs := x.ix.vs.fresh mapContent x.cfgIv, fast := x.cfgFast, adds := [], rems := [] } }, "ok")
-  | ["close"] => ({ x with opened := false, holds := [] }, "ok")
+  | ["close"] => ({ x with opened := false, holds := [], pins := Pins.init, pinIds := [] }, "ok")
   | ["dump"] => (x, "?")
   | ["ixdump"] =>
     -- the persisted fast index as the index machine predicts it: label and entries with their stamps
@@ -556,7 +559,8 @@ partial def exec (x : XState) (args : List String) : XState × String :=
     (if r == "ok" then { x' with legacyLatest := x.legacyLatest.map (fun ll => min ll n.toNat!) } else x', r)
   | ["prune", n] =>
     -- a request that would delete a version pinned by an open export is refused and changes nothing
-    if x.holds.any (fun h => firstVer x.vs.versions ≤ h.2 && h.2 ≤ n.toNat!) then (x, "err") else
+    -- (decided by the reader check of Model/Pins.lean on the counters kept since the exports were opened)
+    if Pins.pruneRefused { x.pins with versions := x.vs.versions.map (·.1) } n.toNat! then (x, "err") else
     -- legacy versions are deleted in bulk: a target below the latest legacy version deletes nothing yet
     match x.legacyLatest with
     | some ll =>
@@ -653,11 +657,20 @@ partial def exec (x : XState) (args : List String) : XState × String :=
     (x2, r)
   | ["hold", id, v] =>
     (match findVer x.vs.versions v.toNat! with
-     | some (some _) => ({ x with holds := (id, v.toNat!) :: x.holds }, "ok")
+     | some (some _) =>
+       ({ x with holds := (id, v.toNat!) :: x.holds,
+                 pins := Pins.step { x.pins with versions := x.vs.versions.map (·.1) } (.export v.toNat!),
+                 pinIds := id :: x.pinIds }, "ok")
      | some none => (x, "?")
      | none => (x, "err"))
-  | ["dclose", id] => ({ x with holds := x.holds.filter (fun h => h.1 != id) }, "ok")   -- closed twice: still one release
-  | ["release", id] => ({ x with holds := x.holds.filter (fun h => h.1 != id) }, "ok")
+  | ["dclose", id] =>   -- closed twice: still one release
+    let idxs := (List.range x.pinIds.length).filter (fun i => x.pinIds[i]? == some id)
+    ({ x with holds := x.holds.filter (fun h => h.1 != id),
+              pins := idxs.foldl (fun p i => Pins.step (Pins.step p (.close i)) (.close i)) x.pins }, "ok")
+  | ["release", id] =>
+    let idxs := (List.range x.pinIds.length).filter (fun i => x.pinIds[i]? == some id)
+    ({ x with holds := x.holds.filter (fun h => h.1 != id),
+              pins := idxs.foldl (fun p i => Pins.step p (.close i)) x.pins }, "ok")
   | "reads" :: "imm" :: n :: op :: arg :: _ =>
     -- storage reads of one lookup on a freshly obtained tree of version n, nothing cached: exactly the
     -- child fetches counted by `getReads` / `hasReads` / `getByIndexReads` (ReadCost.lean)
